@@ -47,12 +47,14 @@ def c03_r1(ctx):
     for n in ast.walk(f.node):
         if isinstance(n, ast.comprehension) and any(norm.call_name(c) == "segreader" for c in norm.calls_in(n) or []) is False:
             pass
+    openers = set(n.name for n in ast.walk(f.node) if isinstance(n, ast.FunctionDef) and n is not f.node and
+                  any(norm.call_name(c) == "SegmentReader" for c in norm.calls_in(n))) | {"SegmentReader"}
     for n in ast.walk(f.node):
         if isinstance(n, (ast.ListComp, ast.GeneratorExp)):
-            if any(norm.call_name(c) == "segreader" for c in norm.calls_in(n.elt)):
+            if any(norm.call_name(c) in openers for c in norm.calls_in(n.elt)):
                 iters.append(norm.canon(n.generators[0].iter))
     for c in norm.calls_in(f.node, include_nested_defs=False):
-        if norm.call_name(c) == "segreader" and c.args:
+        if norm.call_name(c) in openers and c.args:
             a = c.args[0]
             if isinstance(a, ast.Subscript):
                 iters.append(norm.canon(a.value))
@@ -113,18 +115,18 @@ def c03_r2(ctx):
     u = prog.method("searching.Searcher", "up_to_date", inherited=False)
     ctx.saw(u)
     rets = [r for r in returns_of(u) if r.value is not None]
-    got = [_getter_inline(prog, norm.canon(r.value)) for r in rets]
+    got = [_getter_inline(prog, norm.deep_canon(r.value, u.node)) for r in rets]
     ctx.ob(u, got == [want], "returns latest_generation() == reader generation", detail=str(got))
     rf = prog.method("searching.Searcher", "refresh", inherited=False)
     ctx.saw(rf)
-    fa = guards.Facts(rf, textfn=lambda e: _getter_inline(prog, norm.canon(e)))
+    fa = guards.Facts(rf, textfn=lambda e: _getter_inline(prog, norm.deep_canon(e, rf.node)))
     g = fa.g
     ret_self = [n for n in g.nodes if n.kind == "return" and isinstance(n.ast.value, ast.Name) and n.ast.value.id == "self"]
     ok = bool(ret_self) and all(fa.holds(n, "T", want) for n in ret_self)
     ctx.ob(rf, ok, "`return self` only when latest_generation() == reader generation",
            detail="facts: %s" % [sorted(fa.at(n) or []) for n in ret_self])
     newreader = [n for n in g.nodes if n.kind in ("stmt", "return") and
-                 any(norm.call_name(c) == "reader" and "_ix" in norm.canon(norm.receiver(c))
+                 any(norm.call_name(c) == "reader" and "_ix" in norm.deep_canon(norm.receiver(c), rf.node)
                      for c in norm.calls_in(n.ast))]
     ok = bool(newreader) and all(fa.holds(n, "F", want) for n in newreader)
     ctx.ob(rf, ok, "a stale searcher obtains a new reader from the index (self._ix.reader(...))")
@@ -165,7 +167,7 @@ def c03_r2(ctx):
             if "int(" in t:
                 numeric = True
         has_max = has_max and numeric
-    loops_storage = any(isinstance(n, ast.For) and norm.canon(n.iter) in ("storage", "storage.list()") for n in ast.walk(lg.node))
+    loops_storage = any(isinstance(n, (ast.For, ast.comprehension)) and norm.canon(n.iter) in ("storage", "storage.list()") for n in ast.walk(lg.node))
     ctx.ob(lg, has_max and loops_storage, "latest generation is the numeric maximum (max over int(...)) of the generations of the storage's TOC files")
     fl = prog.method("index.FileIndex", "latest_generation", inherited=False)
     rets = [norm.canon(r.value) for r in returns_of(fl) if r.value is not None]
